@@ -350,6 +350,21 @@ def run(prog, rep):
     if not cn or len(cn[0].args) < 3 or not _found(cn[0].args[1], False) or not _found(cn[0].args[2], True) or \
             not any(k.arg == 'copy' and isinstance(k.value, ast.Constant) and k.value.value is False for k in cn[0].keywords):
         rep.violation('R5', loc(mod, mn), fq, 'contraction', 'the other node must be contracted into the caller\'s node in place (keeping the edges of both)')
+    # networkx records what it folded away under a 'contraction' attribute - on the surviving node and on every edge that
+    # already existed on both sides; that bookkeeping (a dict keyed by internal ids) must not stay in the model
+    if cn:
+        no_store = any(k.arg == 'store_contraction_as' and isinstance(k.value, ast.Constant) and k.value.value is None for k in cn[0].keywords)
+        edge_clean = any(isinstance(l_, ast.For) and isinstance(l_.iter, ast.Call) and call_name(l_.iter) == 'edges' and
+                         any(isinstance(c_, ast.Call) and call_name(c_) == 'pop' and c_.args and isinstance(c_.args[0], ast.Constant) and
+                             c_.args[0].value == 'contraction' for c_ in ast.walk(l_)) for l_ in walk_no_nested(mn))
+        node_clean = any(isinstance(c_, ast.Call) and call_name(c_) == 'clear' and '.nodes[' in ast.unparse(expand(c_.func.value, aenv)) for c_ in walk_no_nested(mn))
+        rep.instance('R5', f'{fq}: contraction bookkeeping removed from the node: {node_clean or no_store}; from the merged edges: {edge_clean or no_store}')
+        if not (no_store or (edge_clean and node_clean)):
+            rep.violation('R5', loc(mod, cn[0]), fq, 'contraction attribute left on ' + ('the merged edges' if node_clean else 'the node and the merged edges'),
+                          'nx.contracted_nodes stores what it folded away under a `contraction` attribute; it is cleared on the surviving node '
+                          'but not on the edges both nodes had in common: the link then reports a property nobody set (a dict keyed by '
+                          'internal ids) and serialize_graph() of the model fails (GraphML cannot hold a dict)')
+
     def sink2(st):
         # what is finally written onto the surviving node
         if isinstance(st, ast.Expr) and any(st.value is c for c in upd):
@@ -363,6 +378,8 @@ def run(prog, rep):
 
 NX = 'fim/graph/networkx_property_graph.py'
 MUTANTS = [
+    {'name': 'contraction-left-on-links', 'file': 'fim/graph/networkx_property_graph.py', 'rule': 'R5',
+     'find': "            link_props.pop('contraction', None)\n", 'replace': "            pass\n"},
     {'name': 'class-guard-dropped-in-update-node-properties', 'file': NX, 'rule': 'R1',
      'find': '        if self.NETWORKX_LABEL in props.keys():\n            raise PropertyGraphQueryException(graph_id=self.graph_id, node_id=node_id,\n                                              msg=f"Changing {self.NETWORKX_LABEL} property is not permitted")\n        # gives pointer directly into properties of a node in a graph',
      'replace': '        # gives pointer directly into properties of a node in a graph'},
